@@ -557,6 +557,14 @@ def overlap_variant(m: Model, rng: random.Random):
 
     s1, e1 = window()
     s2, e2 = window()
+    if rng.random() < 0.3:
+        # strict nesting on both sides, built from the ends of the coexistence interval (always possible):
+        # e2 < e1 < s1 < s2
+        top = hi if hi != INF else lo + 32
+        q = (top - lo) / 4
+        e2, e1, s1, s2 = lo, lo + q, lo + 2 * q, (hi if rng.random() < 0.5 else lo + 3 * q)
+        if rng.random() < 0.5:
+            s1, e1, s2, e2 = s2, e2, s1, e1      # which of the two is listed as the existing migration
     mg["start_time"], mg["end_time"] = s1, e1
     mg["rate"] = rng.choice([0, 0, mg["rate"]])
     mg["_eff"] = [(mg["source"], mg["dest"], s1, e1)]
